@@ -123,6 +123,18 @@ def cases(tier, rng):
         n = rng.randint(8, 150)
         r = _runs([int(rng.random() < rng.choice([0.3, 0.5, 0.8])) for _ in range(n)])
         yield dict({'k': 'debounce', 'd': rng.choice([0, 1, 2, 3, 5, 8, n, 2 * n]), 'l': r, 'twice': True}, **rng.choice(dkinds))
+    # ---- debounce_epochs on GENERAL interval sets: runs listed in any order, overlapping / nested / touching intervals
+    # (drop the ones shorter than the limit, then join what is left across gaps <= the limit)
+    for n in range(1, (7 if quick else 9) + 1):
+        for bits in _all_bits(n):
+            r = _runs(bits)
+            if len(r) >= 2:
+                for d in (0, 1, 2):
+                    rr = list(r)
+                    rng.shuffle(rr)
+                    yield {'k': 'debounce', 'd': d, 'l': rr[::-1] if rr == r else rr, 'general': True}
+    for _ in range(150 if quick else 3000):
+        yield {'k': 'debounce', 'd': rng.randint(0, 4), 'l': [p for p in _random_ivs(rng) if p[1] > p[0]], 'general': True}
     # ---- the composition the package uses: debounce_epochs(epochs(x), d) ----
     LP = 8 if quick else 10
     for n in range(0, LP + 1):
@@ -312,7 +324,15 @@ def nontrivial(case, res):
 
 
 def _debounce_want(l, d):
-    kept = [p for p in l if p[1] - p[0] >= d]
+    kept = sorted([list(p) for p in l if p[1] - p[0] >= d])      # any listing order; overlapping intervals join as well
+    kept = [[s, max(e for s2, e in kept if s2 == s)] for s in sorted({p[0] for p in kept})]
+    merged = []
+    for s, e in kept:
+        if merged and s <= merged[-1][1]:
+            merged[-1][1] = max(merged[-1][1], e)
+        else:
+            merged.append([s, e])
+    kept = merged
     want = []
     for s, e in kept:
         if want and s - want[-1][1] <= d:
